@@ -115,12 +115,12 @@ def threaded_nested_sample(ctx, n):
                 box["err"] = type(e).__name__
         t = threading.Thread(target=work, daemon=True)
         t.start()
-        t.join(8)
+        t.join(30)
         case = {"threaded": True, "nested": True, "variant": i % 6}
         ctx.case(case, nontrivial=True)
         ctx.count("threaded-nested")
         if t.is_alive():
-            ctx.failure("threaded-nested-emit-deadlock", "blocking emit() did not return within 8 s when its consumer re-emits into another "
+            ctx.failure("threaded-nested-emit-deadlock", "blocking emit() did not return within 30 s when its consumer re-emits into another "
                         "blocking stream on the same loop thread (nested emit)", case)
             return
         if box.get("err") or len(got) != 1:
